@@ -560,6 +560,29 @@ func c12(c *Ctx) {
 		}
 	}
 
+	// "a missing file is reported as 'not found'" - and only a missing file: every exit of Load that returns
+	// errs.NotFound lies behind the true edge of errors.Is(err, ENOENT) on the error of the stat / open
+	if f := c.P.Func(load.SessPkg, "*genericFileSessionLoader", "Load"); f != nil {
+		var bad []string
+		n := 0
+		for _, b := range f.Blocks {
+			ret, ok := an.AsReturn(b.Instrs[len(b.Instrs)-1])
+			if !ok || len(ret.Results) != 2 || !strings.Contains(tr.OriginString(an.RetVal(ret, 1)), "errs.NotFound") {
+				continue
+			}
+			n++
+			guarded := an.DominatingGuard(f, ret, func(cd *an.Cond) int {
+				if strings.HasSuffix(cd.Kind, "errors.Is") || cd.Kind == "call:os.IsNotExist" || cd.Kind == "call:errors.Is" {
+					return cd.EdgeWhen(true).Succ
+				}
+				return -1
+			})
+			if !guarded {
+				bad = append(bad, "the exit at "+c.pos(ret.Pos())+" reports 'not found' without the file having been found missing")
+			}
+		}
+		r.Check(len(bad) == 0, "R12.E", "load:not-found-only-when-missing", c.pos(f.Pos()), sprintf("%d exit(s) return errs.NotFound; %s (a file that exists - empty after a crash between truncation and write - is an error, or NewMTProto starts a new key exchange over it)", n, strings.Join(bad, "; ")))
+	}
 	// the counterpart on the read side: what is parsed is the whole file, whatever its size ("any length")
 	if f := c.P.Func(load.SessPkg, "*genericFileSessionLoader", "Load"); f != nil {
 		n := 0
